@@ -409,6 +409,8 @@ func main() {
 	conc := flag.Bool("conc", false, "C08: concurrent workloads on one handle (build with -race)")
 	snake := flag.Bool("snake", false, "C18: print camelToSnake of every string over a small alphabet (hex in, hex out)")
 	tagsm := flag.Bool("tags", false, "C16: descriptors derived from struct tags in every option order + end-to-end probes")
+	namedW := flag.String("named-write", "", "C18: write the named-types golden directory (run with the harness built against the pinned release)")
+	namedC := flag.String("named-check", "", "C18: open the named-types golden directory with the current tree")
 	pair := flag.Bool("pair", false, "C12: run every history under a pair of configurations and compare (model-free)")
 	flag.Parse()
 
@@ -435,6 +437,15 @@ func main() {
 		for i := 0; i < *n; i++ {
 			fails += runFuzz19(w, *first+i, *seed*1000003+int64(*first+i))
 		}
+		w.Flush()
+		return
+	}
+	if *namedW != "" {
+		namedWrite(*namedW)
+		return
+	}
+	if *namedC != "" {
+		namedCheck(w, *namedC)
 		w.Flush()
 		return
 	}
